@@ -1,6 +1,7 @@
 import Driver.Proto
 import Dawgs.Model.C18
 import Dawgs.Model.C19
+import Dawgs.Model.C18Json
 /-! Model driver for C18: the same op lines as harness/c18.go, answered by the Lean model
 (fragment boundaries and counts, loaded graph in creation order mapped back to source ids, verify
 outcome). Property values are opaque canonical JSON text. -/
@@ -91,7 +92,9 @@ creation counters running on and one id map per graph -/
 def loadAll (ds : List (GraphDump P B B)) (batch : Nat) : Except LoadErr (List LoadedGraph) :=
   match Dawgs.C18.loadAll idCodec (allFiles ds) (ds.map (fun d => d.manifest)) batch alloc allocE 0 0 with
   | .error e => .error e
-  | .ok rs => .ok (rs.map (fun r => { dst := r.1, idmap := r.2 }))
+  -- the loader decodes the property values (`decodeVal`; on the typed text: `loadText`)
+  | .ok rs => .ok (rs.map (fun r => { dst := { r.1 with nodes := r.1.nodes.map (fun n => { n with props := loadText n.props }),
+                                                          edges := r.1.edges.map (fun e => { e with props := loadText e.props }) }, idmap := r.2 }))
 
 def backName (m : IdMap) (newId : Nat) : String :=
   match m.find? (fun p => p.2 == newId) with
@@ -264,6 +267,8 @@ def step (st : St) (ts : List String) : St × String :=
         let eps := (countRuns (sortStrings (m.endpoints.map endpointKeyStr))).map (fun (k, c) => s!"{k}*{c}")
         ({ st with codec := codec, dumps := some ds, loaded := none }, s!"ok n={m.nodeCount} e={m.edgeCount} combos={combos} ep={",".intercalate eps}")
       | _ => (st, "bad-op")
+  -- NaN / ±Inf have no JSON form: encoding/json refuses, the dump fails, no manifest (Model/C18Json.lean)
+  | ["nandump", k] => (st, if k == "nan" || k == "inf" || k == "-inf" then "nandump rejected" else "bad-op")
   | ["scaleverify"] =>
     -- Load then Verify of the faithful copy: accepted (Props.verify_accepts_loaded); the 65537-node load is not replayed
     match st.dumps, st.graphs with
